@@ -29,8 +29,9 @@ RULE = ('Each case draws a universe (1-8 of 16 database chemicals in any order, 
         'per-phase, 2-d or sparse data), read-back, all other entries untouched. "history": up to 40 steps of read / '
         'write / re-read / the same key on another stream / bulk lookup of 50-700 distinct tuple keys / new indexer '
         '(same phases, copy, other phases, single-phase, '
-        'twin universe) / cross-package copy_like|separate_out from a permuted sub-package / read or write through the '
-        'CAS tuple of that copy / set_alias / define_group, all reads compared with the model, memoised reads repeated at the end '
+        'twin universe) / cross-package copy_like|mix_from|separate_out from a stream on a package that orders the shared '
+        'chemicals differently (subset, or with extra chemicals), followed by reads/writes through exactly the CAS '
+        'tuple/list it looked up on the receiver, the sender and a third stream of each package / set_alias / define_group, all reads compared with the model, memoised reads repeated at the end '
         '(bitwise equal when the stream was not written in between), all names resolved again, lookup caches audited. '
         '"shared": 2-4 streams over one universe or its twin (same phases, same number of other phases, any phases, '
         'single-phase) and 1-8 keys, each applied to every stream on which it is a valid key. "names": every name '
@@ -55,7 +56,8 @@ REQUIRED_CELLS = {'quick': ['key:ix=S', 'key:ix=M', 'key:pk=sum', 'key:pk=phase'
                             'key:fl=mass', 'key:swapcase', 'hist:ev100', 'hist:crossed500', 'hist:op=xcopy',
                             'hist:op=casread', 'hist:new=same', 'hist:new=copy', 'hist:new=phases', 'hist:new=twin',
                             'hist:op=set_alias', 'hist:op=define_group', 'hist:write-group', 'hist:mirror=twin',
-                            'hist:mirror=phases', 'shared:to=twin', 'shared:to=same', 'shared:to=other'],
+                            'hist:mirror=phases', 'hist:probe=recv', 'hist:probe=send', 'hist:probe=recv3',
+                            'hist:probe=send3', 'hist:xcopy-order=different', 'hist:xcopy-sender-has-extra', 'shared:to=twin', 'shared:to=same', 'shared:to=other'],
                   'thorough': []}
 WALL = {'quick': 540, 'thorough': 3300}
 
@@ -93,11 +95,8 @@ def _mk_id(style, name):
     return name
 
 
-def build_universe(ch, ctx, tag, members=None, style=None):
-    if members is None:
-        members = ch.subset(f'{tag}.chems', POOL, 1, 8)
-    if style is None:
-        style = ch.choice(f'{tag}.idstyle', ['db', 'db', 'prefixed', 'spaced'])
+def base_universe(ctx, tag, members, style):
+    """Compiled package over the given database chemicals plus the own name table (no aliases, no groups)."""
     U = Uni()
     U.tag = tag
     U.members = list(members)
@@ -144,6 +143,16 @@ def build_universe(ch, ctx, tag, members=None, style=None):
     U.groups = {}      # name -> (members, molc, wtc)
     U.gorder = []
     U.nalias = 0
+    return U
+
+
+def build_universe(ch, ctx, tag, members=None, style=None):
+    if members is None:
+        members = ch.subset(f'{tag}.chems', POOL, 1, 8)
+    if style is None:
+        style = ch.choice(f'{tag}.idstyle', ['db', 'db', 'prefixed', 'spaced'])
+    U = base_universe(ctx, tag, members, style)
+    n = U.n; chems = U.chems; names_of = U.names_of
     # user aliases
     k = ch.int(f'{tag}.nalias', 0, min(2 * n, 6))
     for j in range(k):
@@ -675,6 +684,7 @@ def nth_tuple(atoms, m):
 class World:
     def __init__(self):
         self.unis = []
+        self.others = []        # sender packages of cross-package operations
         self.streams = []
         self.memo = []
         self.chem_keys = {}     # id(U) -> set of canonical chemical keys looked up
@@ -754,53 +764,120 @@ def op_bulk(ch, ctx, W, label, big):
 
 
 def draw_other(ch, ctx, label, W, S):
-    """A sender on another package: permuted subset of the receiver's chemicals, maybe other IDs."""
+    """A sender on another package: the receiver's chemicals (a subset, in another order, maybe other IDs) plus
+    up to two chemicals the receiver does not know (always with zero flow, so the operation stays admissible)."""
     U = S.U
     sub = ch.subset(f'{label}.chems', U.members, 1, U.n)
     style = ch.choice(f'{label}.idstyle', ['db', 'prefixed', 'spaced'])
-    O = Uni()
-    O.members = list(sub); O.n = len(sub)
-    bases = [_BASE[m] for m in sub]
-    O.ids = [_mk_id(style, m) for m in sub]
-    O.cas = [b.CAS for b in bases]
-    chems = tmo.Chemicals([b.copy(i, CAS=b.CAS) for b, i in zip(bases, O.ids)])
-    chems.compile()
-    O.chems = chems
-    O.thermo = tmo.Thermo(chems)
     phase = ch.choice(f'{label}.phase', list(S.phases) if S.kind == 'M' else ALL_PHASES)
-    flows = ch.draw(f'{label}.flow', st.lists(VAL, min_size=O.n, max_size=O.n))
-    s = tmo.Stream(None, phase=phase, thermo=O.thermo)
-    for i, v in enumerate(flows):
-        if v: s.imol.data.dct[i] = float(v)
-    return O, s, phase, flows
+    flows = ch.draw(f'{label}.flow', st.lists(VAL, min_size=len(sub), max_size=len(sub)))
+    members = list(sub); flows = list(flows)
+    room = min(2, 8 - len(members))
+    extra = ch.subset(f'{label}.extra', [m for m in POOL if m not in U.members], 0, room) if room > 0 else []
+    for k, m in enumerate(extra):
+        at = ch.int(f'{label}.extra{k}.at', 0, len(members))
+        members.insert(at, m); flows.insert(at, 0.0)
+    O = base_universe(ctx, label, members, style)
+    T = Str(O, 'S', [phase], [flows])
+    return O, T, phase, flows
+
+
+def cas_key(X, cas, container):
+    return ('seq', container, [('name', X.names[c], c) for c in cas])
+
+
+def cas_mkey(ch, label, X, cas, container, write):
+    """The exact CAS tuple/list as a key for stream X (with a phase part on multi-phase data)."""
+    ck = cas_key(X.U, cas, container)
+    if X.kind == 'S':
+        return ('single', None, None, ck)
+    pf = ch.choice(f'{label}.pform', ['pk', 'allp'] if write else ['sum', 'pk', 'allp'])
+    if pf == 'pk':
+        p, row, sw = draw_phase(ch, label, X.phases)
+        return ('pk', p, row, ck)
+    return (pf, None, None, ck)
+
+
+def probe(ch, ctx, W, label, X, cas, side):
+    """Read and/or write stream X through exactly the CAS tuple (or list) a cross-package operation looked up."""
+    how = ch.choice(f'{label}.how', ['none', 'read', 'write', 'both', 'read'])
+    if how == 'none': return how
+    container = ch.choice(f'{label}.container', ['tuple', 'list'])
+    if how in ('read', 'both'):
+        mk = cas_mkey(ch, f'{label}.r', X, cas, container, False)
+        W.note(X, mk, ctx)
+        do_read(ctx, X, 'mol', mk, ev=f',side={side}' + W.evtag(X, mk), site='casread')
+    if how in ('write', 'both'):
+        mk = cas_mkey(ch, f'{label}.w', X, cas, container, True)
+        W.note(X, mk, ctx)
+        do_write(ch, ctx, f'{label}.w', X, 'mol', mk, ev=f',side={side}' + W.evtag(X, mk), hist=True)
+        do_read(ctx, X, 'mol', mk, ev=f',side={side}' + W.evtag(X, mk), site='casread')
+    ctx.cell(f'hist:probe={side}')
+    return how
 
 
 def op_xcopy(ch, ctx, W, label):
     si = ch.int(f'{label}.stream', 0, len(W.streams) - 1)
     S = W.streams[si]
     U = S.U
-    O, s, phase, flows = draw_other(ch, ctx, label, W, S)
-    method = ch.choice(f'{label}.method', ['copy_like', 'copy_like', 'separate_out'])
+    O, T, phase, flows = draw_other(ch, ctx, label, W, S)
+    W.others.append(O)
+    method = ch.choice(f'{label}.method', ['copy_like', 'copy_like', 'separate_out', 'mix_from'])
+    # the CAS numbers of the sender's non-zero entries in stored (= ascending) order
+    cas = tuple(O.cas[j] for j, v in enumerate(flows) if v)
+    pre = ch.choice(f'{label}.preread', ['no', 'tuple', 'list', 'recv-tuple'])
+    if cas and pre != 'no':
+        # a lookup of the very same CAS key before the operation, on the sender or on the receiver package
+        if pre == 'recv-tuple':
+            mk = cas_mkey(ch, f'{label}.pre', S, cas, 'tuple', False)
+            W.note(S, mk, ctx)
+            do_read(ctx, S, 'mol', mk, ev=',side=recv-pre' + W.evtag(S, mk), site='casread')
+        else:
+            mk = cas_mkey(ch, f'{label}.pre', T, cas, pre, False)
+            W.note(T, mk, ctx)
+            do_read(ctx, T, 'mol', mk, ev=',side=send-pre' + W.evtag(T, mk), site='casread')
     region = f'recv={S.kind},method={method}' + W.evtag(S)
     recv = S.stream.imol
-    ctx.call('xcopy', getattr(recv, method), s.imol, region=region)
+    if method == 'mix_from':
+        ctx.call('xcopy', recv.mix_from, [T.stream.imol], region=region)
+    else:
+        ctx.call('xcopy', getattr(recv, method), T.stream.imol, region=region)
     r = S.phases.index(phase) if S.kind == 'M' else 0
     pos_of = {c: i for i, c in enumerate(U.cas)}
-    if method == 'copy_like':
+    if method in ('copy_like', 'mix_from'):
         S.model[:] = 0.0
         for j, v in enumerate(flows):
-            S.model[r, pos_of[O.cas[j]]] = float(v)
+            if v: S.model[r, pos_of[O.cas[j]]] = float(v)
     else:
         for j, v in enumerate(flows):
-            S.model[r, pos_of[O.cas[j]]] -= float(v)
+            if v: S.model[r, pos_of[O.cas[j]]] -= float(v)
     S.version += 1
-    check_data(ctx, S, 'mol', f'xcopy|{region}', f'after {method} from a sub-package stream')
-    cas = tuple(O.cas[j] for j, v in enumerate(flows) if v)
-    if cas and not (S.kind == 'M' and method == 'separate_out'):
-        W.last_cas[id(U)] = cas
-        W.xcas.setdefault(id(U), set()).add(cas)
-        W.chem_keys.setdefault(id(U), set()).add(cas)
-    return [S.kind, method, len(cas)]
+    check_data(ctx, S, 'mol', f'xcopy|{region}', f'after {method} from a stream of another package')
+    check_data(ctx, T, 'mol', f'xcopy|{region},sender', f'sender changed by {method}')
+    hows = []
+    if cas:
+        for X in (S, T):
+            W.last_cas[id(X.U)] = cas
+            W.xcas.setdefault(id(X.U), set()).add(cas)
+            W.chem_keys.setdefault(id(X.U), set()).add(cas)
+        # the same key on the receiver, the sender, and a third stream of either package
+        hows.append(probe(ch, ctx, W, f'{label}.recv', S, cas, 'recv'))
+        hows.append(probe(ch, ctx, W, f'{label}.send', T, cas, 'send'))
+        if ch.bool(f'{label}.third'):
+            R3 = draw_stream(ch, f'{label}.recv3', U)
+            T3 = draw_stream(ch, f'{label}.send3', O)
+            hows.append(probe(ch, ctx, W, f'{label}.recv3p', R3, cas, 'recv3'))
+            hows.append(probe(ch, ctx, W, f'{label}.send3p', T3, cas, 'send3'))
+            check_data(ctx, R3, 'mol', 'xcopy|third', 'third receiver-package stream')
+            check_data(ctx, T3, 'mol', 'xcopy|third', 'third sender-package stream')
+        check_data(ctx, S, 'mol', f'xcopy|{region},probed', 'receiver after the probes')
+        check_data(ctx, T, 'mol', f'xcopy|{region},probed', 'sender after the probes')
+    if len(W.streams) < 6:
+        W.streams.append(T)     # the sender lives on: later steps read, write, bulk-read and audit it too
+    same_order = [c for c in U.cas if c in O.cas] == [c for c in O.cas if c in U.cas]
+    ctx.cell('hist:xcopy-order=' + ('same' if same_order else 'different'))
+    if len(O.members) > len([m for m in O.members if m in U.members]): ctx.cell('hist:xcopy-sender-has-extra')
+    return [S.kind, method, len(cas), pre, hows, same_order]
 
 
 def op_casread(ch, ctx, W, label):
@@ -858,7 +935,7 @@ def op_new(ch, ctx, W, label):
 
 def audit(ctx, W):
     """White-box: every memoised entry must be what a fresh resolution of its key gives."""
-    for U in W.unis:
+    for U in W.unis + W.others:
         cache = U.chems._index_cache
         if len(cache) > 100:
             ctx.fail('audit|cache=chem100|oversize', f'{len(cache)} entries')
@@ -872,7 +949,7 @@ def audit(ctx, W):
     for ckey, cache in list(tix.MaterialIndexer._index_caches.items()):
         if not (isinstance(ckey, tuple) and len(ckey) == 2): continue
         phases, chems = ckey
-        U = next((u for u in W.unis if u.chems is chems), None)
+        U = next((u for u in W.unis + W.others if u.chems is chems), None)
         if U is None or not (isinstance(phases, tuple) and all(isinstance(p, str) for p in phases)): continue
         if len(cache) > 500:
             ctx.fail('audit|cache=material500|oversize', f'{len(cache)} entries')
@@ -1015,7 +1092,7 @@ def prop_history(ch, ctx):
     # the end of the history: repeat memoised reads, resolve every name again, audit the caches
     for k in range(len(W.memo)):
         reread(ctx, W, k, 'end')
-    for Ux in W.unis:
+    for Ux in W.unis + W.others:
         verify_names(ctx, Ux, 'after-history')
     for S in W.streams:
         check_data(ctx, S, 'mass', 'final|data', 'final data')
